@@ -133,6 +133,9 @@ def surface_dirty(repo, keys):
 
 
 def run(repo, chk, tier):
+    from .c17_params import check_temp_params_cover
+
+    check_temp_params_cover(repo, chk)
     chk.rule("R0", "a surface function that writes a state cell writes it back (no orphan write / snapshot)")
     chk.rule(
         "R1",
